@@ -108,9 +108,12 @@ class _First(object):
             self.res.violation(sig, hist, obs, exp, act, mode)
 
 
-def run_fmt_sym(res, k, n, v):
+BIG_EXPS = [9, -9, 10, -10, 11, -11, 20, -20, 100, -100]  # two- and three-digit decimal exponents (with and without zero digits)
+
+
+def run_fmt_sym(res, k, n, v, near_only=False):
     first = _First(res)
-    vals = values_for(v)
+    vals = values_for(v, exps=[k - 1, k, k + 1, k + 2, k + 3]) if near_only else values_for(v)
     for m in mantissas(v):
         e = fl(m, k)
         for latex in (False, True):
@@ -705,6 +708,9 @@ def jobs(tier, seed):
         for k in EXP_ORDER:
             specs.append(("sym", k, n, fv, tier))
             specs.append(("asym", k, n, fv, tier))
+    for n in NSIG:
+        for k in BIG_EXPS:
+            specs.append(("symbig", k, n, fv, tier))
     k0 = [i for i, s in enumerate(specs) if s[0] == "show" and s[2] == "iminuit" and s[1] == "xy-lin"][0]
     specs.insert(0, specs.pop(k0))
     return specs
@@ -715,7 +721,7 @@ DETCHECK_JOB = 0
 
 def bound(tier, seed):
     return (
-        "get_formatted: %d uncertainty mantissas x exponents -6..6 x (0 and +- the same set) values x n in {1,2,3} x {plain, LaTeX}, complete; "
+        "get_formatted: %d uncertainty mantissas x exponents -6..6 x (0 and +- the same set) values x n in {1,2,3} x {plain, LaTeX}, complete; exponents +-9, +-10, +-11, +-20, +-100 with the values of the same and the next three decades; "
         "asymmetric pairs (equal, same decade, up to %d decades apart, both orientations) x %d values x n x {plain, LaTeX}; fixed flag x all values; "
         "displays: %d problems x 2 backends x {free, last parameter fixed} x %d moment sequences x 2 display orders, valuation(s) %s"
         % (len(mantissas((seed % 3) if tier == "quick" else 3)), 1 if tier == "quick" else 2, len(asym_values(0, tier)), len(PROBLEMS), len(seq_names(tier)), (seed % 3) if tier == "quick" else "0,1,2")
@@ -731,6 +737,9 @@ def run_job(spec):
     elif kind == "asym":
         _, k, n, v, tier = spec
         run_fmt_asym(res, k, n, v, tier)
+    elif kind == "symbig":
+        _, k, n, v, tier = spec
+        run_fmt_sym(res, k, n, v, near_only=True)
     elif kind == "show":
         _, problem, backend, v, fix, tier = spec
         run_show(res, problem, backend, v, fix, tier)
